@@ -46,6 +46,25 @@ pub trait CaseEngine: Sync {
     fn abort_is_violation(&self) -> bool {
         true
     }
+    /// a case made no progress for the watchdog time: `Some(signature suffix)` if that refutes this engine's
+    /// property (given the last progress line and the agdb / harness frames of the stuck thread, innermost
+    /// first), `None` if it is inconclusive
+    /// Default: the stuck thread is inside agdb code (innermost frame of interest is agdb's, not the harness's):
+    /// the operation the harness called does not return, which refutes every property (each presupposes that the
+    /// operation delivers a result). Signature = the outermost agdb frame, i.e. the API entry point.
+    fn hang_signature(&self, _progress: &str, frames: &[String]) -> Option<String> {
+        let first = frames.first()?;
+        if !first.contains("agdb::") {
+            return None;
+        }
+        let outer = frames.iter().rev().find(|f| f.contains("agdb::"))?;
+        Some(format!("operation_does_not_return:{outer}"))
+    }
+    /// CPU seconds (not wall-clock: load independent) a case may burn without emitting a progress line before it
+    /// is killed as spinning; engines emit a progress line per operation, and an operation takes milliseconds
+    fn hang_cpu_seconds(&self) -> f64 {
+        90.0
+    }
 }
 
 fn emit(line: &str) {
@@ -62,6 +81,16 @@ pub fn worker_main(engine: &dyn CaseEngine, args: &Args) {
     let of: usize = it.next().and_then(|x| x.parse().ok()).unwrap_or(1);
     let from = args.u64("from-case", 0) as usize;
     let n = engine.cases(args);
+    // a worker whose parent is gone (killed run) must not keep spinning
+    let parent = std::os::unix::process::parent_id();
+    std::thread::spawn(move || {
+        loop {
+            std::thread::sleep(Duration::from_secs(1));
+            if std::os::unix::process::parent_id() != parent {
+                std::process::exit(3);
+            }
+        }
+    });
     let cap = engine.alloc_cap();
     if cap > 0 {
         crate::alloccap::set_cap(cap);
@@ -108,6 +137,47 @@ struct Child {
     last_activity: Instant,
     stderr_path: String,
     generation: usize,
+    /// what the worker was doing when the watchdog fired (progress line, agdb frames of its main thread, CPU seconds burnt without progress)
+    hang: Option<(String, Vec<String>, f64)>,
+    /// (the `last_activity` instant the baseline belongs to, CPU seconds of the process at that moment)
+    cpu_base: (Instant, f64),
+}
+
+/// CPU time (user + system, all threads) a process has consumed, in seconds: unlike wall-clock time it does not
+/// advance while the process is starved on a loaded machine
+fn cpu_seconds(pid: u32) -> f64 {
+    let Ok(stat) = std::fs::read_to_string(format!("/proc/{pid}/stat")) else { return 0.0 };
+    // fields after the parenthesised command name: state is field 3, utime 14, stime 15
+    let Some(rest) = stat.rsplit_once(") ").map(|x| x.1) else { return 0.0 };
+    let f: Vec<&str> = rest.split_whitespace().collect();
+    let ticks: f64 = f.get(11).and_then(|x| x.parse::<f64>().ok()).unwrap_or(0.0) + f.get(12).and_then(|x| x.parse::<f64>().ok()).unwrap_or(0.0);
+    ticks / 100.0
+}
+
+/// backtrace of a live process through gdb (pre-installed): the function names of its main thread, innermost first
+fn gdb_frames(pid: u32) -> Vec<String> {
+    let out = Command::new("timeout")
+        .args(["20", "gdb", "-p", &pid.to_string(), "-batch", "-nx", "-ex", "bt 60"])
+        .stdin(Stdio::null())
+        .stderr(Stdio::null())
+        .output();
+    let Ok(out) = out else { return vec![] };
+    let text = String::from_utf8_lossy(&out.stdout).to_string();
+    let mut v = vec![];
+    for l in text.lines() {
+        let l = l.trim_start();
+        if !l.starts_with('#') {
+            continue;
+        }
+        // "#3  0x0000 in path::to::function (args) at file:line"  |  "#0  path::function (args) at ..."
+        let rest = l.splitn(2, char::is_whitespace).nth(1).unwrap_or("").trim_start();
+        let rest = rest.split_once(" in ").map(|x| x.1).unwrap_or(rest);
+        let name = rest.split(" (").next().unwrap_or(rest).trim();
+        if !name.is_empty() {
+            v.push(name.to_string());
+        }
+    }
+    v
 }
 
 fn spawn(args: &Args, shard: usize, of: usize, from: usize, tx: &mpsc::Sender<Msg>, scratch: &str, generation: usize) -> Child {
@@ -150,6 +220,8 @@ fn spawn(args: &Args, shard: usize, of: usize, from: usize, tx: &mpsc::Sender<Ms
         proc,
         case: None,
         last_p: String::new(),
+        hang: None,
+        cpu_base: (Instant::now(), 0.0),
         done: false,
         last_activity: Instant::now(),
         stderr_path,
@@ -220,7 +292,37 @@ pub fn parent_main(engine: &dyn CaseEngine, args: &Args) -> Report {
     let mut live = workers;
     let mut watchdog_kills = 0u64;
     let max_watchdog_kills = args.u64("max-stuck", 12);
+    let mut deaths = 0u64;
+    let max_deaths = args.u64("max-deaths", 96);
+    let mut last_check = Instant::now();
     while live > 0 {
+        if last_check.elapsed() >= Duration::from_secs(2) {
+            last_check = Instant::now();
+            for c in children.iter_mut() {
+                if c.done || c.case.is_none() || c.last_p == "__watchdog__" {
+                    continue;
+                }
+                // CPU seconds burnt since the last sign of progress (the baseline follows `last_activity`)
+                let cpu_now = cpu_seconds(c.proc.id());
+                if c.cpu_base.0 != c.last_activity {
+                    c.cpu_base = (c.last_activity, cpu_now);
+                }
+                let cpu_stuck = cpu_now - c.cpu_base.1;
+                // once the run has given up, workers that are stuck are given a short grace period only
+                let limit = if watchdog_kills >= max_watchdog_kills { timeout.min(Duration::from_secs(10)) } else { timeout };
+                if c.last_activity.elapsed() > limit || cpu_stuck > engine.hang_cpu_seconds() {
+                    // function names without generic arguments; only agdb's and the harness's own frames are of interest
+                    let frames: Vec<String> = gdb_frames(c.proc.id())
+                        .into_iter()
+                        .map(|f| f.split('<').next().unwrap_or("").trim_end_matches("::").to_string())
+                        .filter(|f| f.contains("agdb::") || f.contains("vcore::") || f.contains("dbh::"))
+                        .collect();
+                    c.hang = Some((c.last_p.clone(), frames, cpu_stuck));
+                    c.last_p = "__watchdog__".into();
+                    let _ = c.proc.kill();
+                }
+            }
+        }
         match rx.recv_timeout(Duration::from_secs(2)) {
             Ok(Msg::Line(i, l)) => {
                 let c = &mut children[i];
@@ -263,7 +365,20 @@ pub fn parent_main(engine: &dyn CaseEngine, args: &Args) -> Report {
                 );
                 if killed_by_watchdog {
                     watchdog_kills += 1;
-                    rep.inconclusive(&format!("watchdog: case {case:?} made no progress for {}s", timeout.as_secs()));
+                    let (progress, frames, cpu_stuck) = children[i].hang.clone().unwrap_or_default();
+                    let first = frames.iter().find(|f| f.contains("agdb::")).cloned().unwrap_or("unknown".into());
+                    // only CPU time is a verdict: a case that burnt `hang_cpu_seconds` of CPU without a sign of progress
+                    // is spinning; one that merely made no progress in wall-clock time may have been starved
+                    let spinning = cpu_stuck > engine.hang_cpu_seconds();
+                    match engine.hang_signature(&progress, &frames).filter(|_| spinning) {
+                        Some(sig) => rep.violation(
+                            &format!("{}:{sig}", engine.property()),
+                            &format!("case {case:?} consumed {cpu_stuck:.0} s of CPU without progress at [{progress}]; the process was executing {first}"),
+                            json!({"engine": args.pos.first(), "case": case, "seed": args.u64("seed", 1), "tier": args.str("tier","quick"),
+                                   "progress": progress, "frames": frames.iter().take(25).collect::<Vec<_>>()}),
+                        ),
+                        None => rep.inconclusive(&format!("watchdog: case {case:?} made no progress for {}s / {cpu_stuck:.0}s of CPU (executing {first})", timeout.as_secs())),
+                    }
                 } else if engine.abort_is_violation() {
                     let pclass = children[i].last_p.split_whitespace().next().unwrap_or("").to_string();
                     rep.violation(
@@ -276,9 +391,16 @@ pub fn parent_main(engine: &dyn CaseEngine, args: &Args) -> Report {
                     rep.inconclusive(&detail);
                 }
                 rep.count("worker_deaths");
+                deaths += 1;
                 // a tree on which case after case hangs is not explored further: every stuck case costs the
                 // whole watchdog time, and the run must end in bounded time with an inconclusive verdict
-                let give_up = watchdog_kills >= max_watchdog_kills;
+                let give_up = watchdog_kills >= max_watchdog_kills || deaths >= max_deaths;
+                if deaths >= max_deaths {
+                    let msg = format!("gave up after {deaths} worker deaths: the remaining cases of this run were not explored");
+                    if !rep.coverage_fail.contains(&msg) {
+                        rep.coverage_fail.push(msg);
+                    }
+                }
                 if give_up && killed_by_watchdog {
                     let msg = format!("gave up after {watchdog_kills} cases that made no progress for {}s each: the remaining cases of this run were not explored", timeout.as_secs());
                     if !rep.coverage_fail.contains(&msg) {
@@ -298,16 +420,7 @@ pub fn parent_main(engine: &dyn CaseEngine, args: &Args) -> Report {
                     }
                 }
             }
-            Err(mpsc::RecvTimeoutError::Timeout) => {
-                for c in children.iter_mut() {
-                    // once the run has given up, workers that are stuck are given a short grace period only
-                    let limit = if watchdog_kills >= max_watchdog_kills { timeout.min(Duration::from_secs(10)) } else { timeout };
-                    if !c.done && c.case.is_some() && c.last_activity.elapsed() > limit && c.last_p != "__watchdog__" {
-                        c.last_p = "__watchdog__".into();
-                        let _ = c.proc.kill();
-                    }
-                }
-            }
+            Err(mpsc::RecvTimeoutError::Timeout) => {}
             Err(mpsc::RecvTimeoutError::Disconnected) => break,
         }
     }
